@@ -376,13 +376,9 @@ def passage_nodes(repo, rep):
         fn = repo.func(p, q)
         names = [a.arg for a in fn.args.args]
         t = ret_term(repo, p, q, arg_terms={names[0]: ("epoch", T.sym("E")), names[1]: T.sym("ASC")})
-        # replace the owning class name by a placeholder
-        def norm(x):
-            if isinstance(x, tuple):
-                return tuple(norm(y) for y in x)
-            if isinstance(x, str) and x.startswith(p + "." + p + "."):
-                return "<PLANET>." + x[len(p) * 2 + 2:]
-            return x
+        # replace the owning class name by a placeholder (and re-sort operands)
+        pre = p + "." + p + "."
+        norm = lambda x, pre=pre: T.renorm(x, lambda s_: "<PLANET>." + s_[len(pre):] if s_.startswith(pre) else s_)
         terms[p] = norm(t)
     ref = terms["Venus"]
     for p in PERI:
